@@ -35,3 +35,22 @@ def wsum_scale(ctx):
         out.append((f"base[{nm}]", ax, g(0) == cc * f(0), "g(0) = c f(0)"))
         out.append((f"step[{nm}]", ax + [b >= 0, g(b) == cc * f(b)], g(b + 1) == cc * f(b + 1), "g(b)=c f(b) implies g(b+1)=c f(b+1)"))
     return out
+
+
+@lemma("wsum_ext", ["C18", "C10", "C08", "C07", "C04", "C09", "C11", "C16"])
+def wsum_ext(ctx):
+    """two wait-sum functions whose weights agree pointwise (second list shifted by s in {0,1} with zero weights in front)
+    agree:  (forall j<n. w1(j) = w2(j+s)) and (forall j<s. w2(j) = 0)  ==>  forall k<=n. f2(k+s) = f1(k)      (induction on k)"""
+    f1, f2 = z3.Function("f1", I, I), z3.Function("f2", I, I)
+    w1, w2 = z3.Function("w1", I, I), z3.Function("w2", I, I)
+    n, k, j, b = z3.Ints("n k j b")
+    out = []
+    for s_ in (0, 1):
+        ax = [f1(0) == 0, f2(0) == 0,
+              z3.ForAll([k], z3.Implies(k >= 0, f1(k + 1) == f1(k) + w1(k)), patterns=[f1(k + 1)]),
+              z3.ForAll([k], z3.Implies(k >= 0, f2(k + 1) == f2(k) + w2(k)), patterns=[f2(k + 1)]),
+              z3.ForAll([j], z3.Implies(z3.And(0 <= j, j < n), w1(j) == w2(j + s_)), patterns=[w1(j)]),
+              z3.ForAll([j], z3.Implies(z3.And(0 <= j, j < s_), w2(j) == 0), patterns=[w2(j)])]
+        out.append((f"base[s={s_}]", ax, f2(0 + s_) == f1(0), "k = 0"))
+        out.append((f"step[s={s_}]", ax + [0 <= b, b < n, f2(b + s_) == f1(b)], f2(b + 1 + s_) == f1(b + 1), "k -> k+1"))
+    return out
